@@ -127,6 +127,7 @@ func (r *report) selftest(ld *loaded) {
 	ccfg.Concrete = true
 	ccfg.Workers = 1
 	csh := &Shared{cfg: ccfg, prog: ld.prog, hpkg: ld.hpkg, enumTab: ld.enumTab, known: &KnownFindings{}, rngs: nil}
+	csh.jsonUTE, csh.jType, csh.streamType = ld.lookupTypes()
 	csh.cond = nil
 	ex := &Exec{sh: csh, prog: ld.prog, id: 0, posCache: map[ssa.Instruction]string{}}
 	csh.rngs = map[*Exec]*rand.Rand{}
